@@ -554,6 +554,24 @@ def section_exec(chk, repo):
                     red = ev.call(ev.getattr(lk, nm), [4] if nm.endswith(
                         "ex__") else [])
                     break
+            if red is None and repo.lookup(ci, "__getstate__")[1] is not \
+                    None:
+                # the default __reduce_ex__: a bare instance, then the
+                # state
+                state = ev.call(ev.getattr(lk, "__getstate__"), [])
+                copy = Obj(ci, {})
+                if repo.lookup(ci, "__setstate__")[1] is not None:
+                    ev.call(ev.getattr(copy, "__setstate__"), [state])
+                elif isinstance(state, dict):
+                    copy.fields.update(state)
+                else:
+                    raise Unknown("__getstate__ without __setstate__")
+                if ev.getattr(copy, "no") != ev.getattr(lk, "no"):
+                    bad.append(f"terminal {station}: the copy of the lock "
+                               f"that arrives in another process uses byte "
+                               f"{ev.getattr(copy, 'no')}, the original "
+                               f"byte {ev.getattr(lk, 'no')}")
+                continue
             if red is None:
                 continue
             if not isinstance(red, tuple) or len(red) < 2:
@@ -630,9 +648,47 @@ def creation(chk, repo):
            "FMMULock checks the length of what it read)" if not ok else
            "length checked")
     lf = repo.func(L + "LockFile.__init__")
-    ok = bool(find("os.open(self.filename, os.O_CREAT | os.O_RDWR | "
-                   "os.O_EXCL | os.O_CLOEXEC)", lf)) and bool(find(
-        "os.write(self.fd, bytes(maximum - minimum))", lf))
+    lfc = repo.cls(L + "LockFile")
+    ok = None
+    try:
+        # by abstract execution: the first opener creates the file
+        # exclusively and fills it with one zero byte per address, a later
+        # one opens it without creating or writing
+        import os as _os
+        res = []
+        for exists in (False, True):
+            log = []
+
+            def os_open(path, flags, *a, _e=exists, _l=log):
+                _l.append(("open", path, flags))
+                if flags & _os.O_CREAT and flags & _os.O_EXCL and _e:
+                    raise Raised("FileExistsError: exists")
+                return 9
+            os_ = Obj(None, {
+                "open": ("hook", os_open),
+                "write": ("hook", lambda fd, d, _l=log: _l.append(
+                    ("write", fd, bytes(d)))),
+                "makedirs": ("hook", lambda *a, **k: None),
+                "O_CREAT": _os.O_CREAT, "O_RDWR": _os.O_RDWR,
+                "O_EXCL": _os.O_EXCL, "O_CLOEXEC": _os.O_CLOEXEC})
+            me_ = Obj(lfc, {})
+            Evaluator(repo, lfc.module, lfc, funcs={"os": os_}).call_function(
+                lf, [me_, "/run/x/mbx", 1000, 1064], cls=lfc)
+            res.append((log, me_.fields.get("fd")))
+        (l0, fd0), (l1, fd1) = res
+        excl = _os.O_CREAT | _os.O_EXCL
+        ok = fd0 == 9 and fd1 == 9 and len(l0) == 2 and l0[0][0] == "open" \
+            and l0[0][2] & excl == excl and l0[0][2] & _os.O_RDWR \
+            and l0[1] == ("write", 9, bytes(64)) \
+            and [e[0] for e in l1] == ["open", "open"] \
+            and l1[0][2] & excl == excl and not l1[1][2] & _os.O_CREAT \
+            and l1[1][2] & _os.O_RDWR
+    except (Unknown, Raised):
+        ok = None
+    if ok is None:
+        ok = bool(find("os.open(self.filename, os.O_CREAT | os.O_RDWR | "
+                       "os.O_EXCL | os.O_CLOEXEC)", lf)) and bool(find(
+            "os.write(self.fd, bytes(maximum - minimum))", lf))
     chk.ob("R15.6", L + "LockFile.__init__", "the creator (O_EXCL) sizes the "
            "file with one zero byte per address", ok, lf,
            "exclusive creation, then bytes(maximum - minimum)")
